@@ -591,6 +591,9 @@ def gen_law(repo, out, errors):
         body = _strip_doc(fn.body)
         expect_casts = {"freqs": "np.atleast_1d(freqs).astype(np.float32)", "dm": "np.atleast_1d(dm)[:, np.newaxis].astype(np.float32)"}
         i = 0
+        keeps_axis = False
+        if ast.unparse(body[0]) == "scalar_dm = np.ndim(dm) == 0":
+            keeps_axis = True; i = 1
         for name, txt in expect_casts.items():
             s = body[i]
             if not (isinstance(s, ast.Assign) and ast.unparse(s.targets[0]) == name and ast.unparse(s.value) == txt):
@@ -622,7 +625,8 @@ def gen_law(repo, out, errors):
         qx2 = QX({"delays": "(dmdelay_sec freq dm ref_freq)", "tsamp": "tsamp"}, src)
         samp = qx2.qx(inner)
         i += 1
-        if i != len(body) - 1 or ast.unparse(body[i]) != "return delays.squeeze()":
+        tail_ok = ("return delays[0] if scalar_dm else delays",) if keeps_axis else ("return delays.squeeze()",)
+        if i != len(body) - 1 or ast.unparse(body[i]) not in tail_ok:
             raise Unsupported("compute_dmdelays: tail " + ast.unparse(body[i])[:60])
         out.append(f"(* from params.{used[0]} = {ast.get_source_segment(src, cval)} and params.compute_dmdelays (elementwise; float32 casts not modelled) *)")
         out.append(f"Definition dm_constant : Q := {cq}.")
